@@ -522,7 +522,20 @@ class Typer:
                 if t:
                     out |= t
             elif a[0] == "proto" and a[1] == "?":
-                out.add(("proto", "?"))
+                # a message of unknown kind: a field name that a single message of the schema declares still says what it is
+                # (`<?>.tensor_type` can only be TypeProto.tensor_type)
+                owners = [m for m in self.schema.messages.values() if attr in m.fields] if self.schema is not None else []
+                if len(owners) == 1:
+                    fld = owners[0].fields[attr]
+                    tgt = self.schema.resolve_type(owners[0], fld.type)
+                    if fld.label == "map":
+                        out.add(("protomap", fld.type))
+                    elif tgt is not None:
+                        out.add(("protorep" if fld.label == "repeated" else "proto", tgt.full))
+                    else:
+                        out.add(("protorepscalar" if fld.label == "repeated" else "protoscalar", fld.type))
+                else:
+                    out.add(("proto", "?"))
             elif a[0] == "proto" and self.schema is not None:
                 msg = self.schema.messages.get(a[1])
                 if msg and attr in msg.fields:
